@@ -77,6 +77,53 @@ type jwksRT struct {
 	mu   sync.Mutex
 	body []byte
 	hits int
+	disc []byte // discovery document served under oidc.DiscoveryEndpoint (relying-party routes)
+}
+
+const jwksURL = "https://op.verif.test/keys"
+
+// everyAlg is what a provider announces when the relying party was not asked to follow the announcement.
+var everyAlg = []string{"RS256", "RS384", "RS512", "PS256", "PS384", "PS512", "ES256", "ES384", "ES512", "EdDSA", "HS256", "none"}
+
+func discoveryDoc(algs []string) []byte {
+	b, err := json.Marshal(map[string]any{"issuer": issuer, "authorization_endpoint": issuer + "/authorize", "token_endpoint": issuer + "/token",
+		"jwks_uri": jwksURL, "id_token_signing_alg_values_supported": algs, "response_types_supported": []string{"code"}, "subject_types_supported": []string{"public"}})
+	if err != nil {
+		panic(err)
+	}
+	return b
+}
+
+func jsonResponse(req *http.Request, b []byte) *http.Response {
+	return &http.Response{StatusCode: 200, Status: "200 OK", Proto: "HTTP/1.1", ProtoMajor: 1, ProtoMinor: 1,
+		Header: http.Header{"Content-Type": {"application/json"}}, Body: io.NopCloser(bytes.NewReader(b)), ContentLength: int64(len(b)), Request: req}
+}
+
+// relyingPartyVerifier builds a relying party against the in-memory provider behind hc and returns ITS ID token verifier.
+func relyingPartyVerifier(hc *http.Client, route string, order int, A []string) *rp.IDTokenVerifier {
+	var opts []rp.Option
+	switch route {
+	case "relying-party+verifier-opts":
+		var vo []rp.VerifierOption
+		if A != nil {
+			vo = append(vo, rp.WithSupportedSigningAlgorithms(A...))
+		}
+		opts = []rp.Option{rp.WithHTTPClient(hc), rp.WithVerifierOpts(vo...)}
+	case "relying-party+discovery-algs":
+		opts = []rp.Option{rp.WithHTTPClient(hc), rp.WithVerifierOpts()}
+		if order == 0 {
+			opts = append([]rp.Option{rp.WithSigningAlgsFromDiscovery()}, opts...)
+		} else {
+			opts = append(opts, rp.WithSigningAlgsFromDiscovery())
+		}
+	default:
+		panic("c02: unknown route " + route)
+	}
+	party, err := rp.NewRelyingPartyOIDC(context.Background(), issuer, rpClient, "secret", "https://rp.verif.test/cb", []string{"openid"}, opts...)
+	if err != nil {
+		panic("c02 harness: relying party cannot be built: " + err.Error())
+	}
+	return party.IDTokenVerifier()
 }
 
 func (t *jwksRT) set(S []ksEntry) {
@@ -101,11 +148,15 @@ func (t *jwksRT) hitCount() int {
 
 func (t *jwksRT) RoundTrip(req *http.Request) (*http.Response, error) {
 	t.mu.Lock()
+	if t.disc != nil && strings.HasSuffix(req.URL.Path, oidc.DiscoveryEndpoint) {
+		b := t.disc
+		t.mu.Unlock()
+		return jsonResponse(req, b), nil
+	}
 	b := t.body
 	t.hits++
 	t.mu.Unlock()
-	return &http.Response{StatusCode: 200, Status: "200 OK", Proto: "HTTP/1.1", ProtoMajor: 1, ProtoMinor: 1,
-		Header: http.Header{"Content-Type": {"application/json"}}, Body: io.NopCloser(bytes.NewReader(b)), ContentLength: int64(len(b)), Request: req}, nil
+	return jsonResponse(req, b), nil
 }
 
 // worker holds the per-goroutine provider worlds (one per allow-list) so that cases never share mutable state.
@@ -125,6 +176,29 @@ type worker struct {
 	profile  *opdrv.World
 	profileN int
 	warmJWS  *jose.JSONWebSignature
+	// long-lived JWT-profile verifier objects over the profile world's storage (default / permissive subject check)
+	kept [2]*op.JWTProfileVerifier
+}
+
+func newProfileVerifier(world *opdrv.World, permissive bool) *op.JWTProfileVerifier {
+	if permissive {
+		// the documented way to allow delegation: same storage, issuer and windows as the provider's
+		// own verifier, custom subject check
+		return op.NewJWTProfileVerifier(world.Storage, issuer, time.Hour, time.Second,
+			op.SubjectCheck(func(*oidc.JWTTokenRequest) error { return nil }))
+	}
+	return op.NewJWTProfileVerifier(world.Storage, issuer, time.Hour, time.Second)
+}
+
+func (w *worker) keptVerifier(world *opdrv.World, permissive bool) *op.JWTProfileVerifier {
+	i := 0
+	if permissive {
+		i = 1
+	}
+	if w.kept[i] == nil {
+		w.kept[i] = newProfileVerifier(world, permissive)
+	}
+	return w.kept[i]
 }
 
 func newWorker() *worker {
@@ -185,6 +259,7 @@ func (w *worker) profileWorld() *opdrv.World {
 		w.profile = opdrv.MustWorld(opdrv.Options{Issuer: issuer, Config: opdrv.DefaultConfig(), Caps: vstore.Full})
 		w.profile.Store.SetJournal(false)
 		w.profileN = 0
+		w.kept = [2]*op.JWTProfileVerifier{} // they hold the replaced world's storage
 	}
 	w.profileN++
 	return w.profile
@@ -209,11 +284,22 @@ func (w *worker) prepare(c *caseCtx, useRaw bool, skipRemote bool) func(tok stri
 		return func(tok string) outcome {
 			rt := &jwksRT{}
 			var ks oidc.KeySet
+			var ver *rp.IDTokenVerifier
 			hc := &http.Client{Transport: rt}
-			if skipRemote {
-				ks = rp.NewRemoteKeySet(hc, "https://op.verif.test/keys", rp.SkipRemoteCheck())
-			} else {
-				ks = rp.NewRemoteKeySet(hc, "https://op.verif.test/keys")
+			switch {
+			case c.route != "" && c.route != "direct":
+				rt.disc = discoveryDoc(everyAlg)
+				if c.route == "relying-party+discovery-algs" {
+					rt.disc = discoveryDoc(c.A)
+				}
+				if pi := mon.Catch(func() { ver = relyingPartyVerifier(hc, c.route, c.routeOrder, c.A) }); pi != nil {
+					return outcome{pi: pi, note: "relying-party construction"}
+				}
+				ks = ver.KeySet
+			case skipRemote:
+				ks = rp.NewRemoteKeySet(hc, jwksURL, rp.SkipRemoteCheck())
+			default:
+				ks = rp.NewRemoteKeySet(hc, jwksURL)
 			}
 			if c.cached != nil {
 				rt.set(c.cached)
@@ -223,6 +309,9 @@ func (w *worker) prepare(c *caseCtx, useRaw bool, skipRemote bool) func(tok stri
 				time.Sleep(20 * time.Microsecond) // let the download goroutine publish its result; no verdict depends on it
 			}
 			rt.set(c.S)
+			if ver != nil {
+				return verifyRPWith(ver, tok, useRaw)
+			}
 			return verifyRP(c, ks, tok, useRaw)
 		}
 	case "rp-static":
@@ -303,17 +392,28 @@ func (w *worker) prepare(c *caseCtx, useRaw bool, skipRemote bool) func(tok stri
 		if c.subMode == "other-client" {
 			installClientKeys(world, c.sub, c.otherS)
 		}
+		if c.pred != "" {
+			installClientKeys(world, c.pred, c.predS)
+		}
 		ctx := opCtx()
+		var keptV *op.JWTProfileVerifier
+		switch c.vlife {
+		case "per-case":
+			keptV = newProfileVerifier(world, c.permissive)
+		case "per-worker":
+			keptV = w.keptVerifier(world, c.permissive)
+		}
 		return func(tok string) outcome {
 			var o outcome
 			o.typed = true
 			o.pi = mon.Catch(func() {
-				v := world.Provider.JWTProfileVerifier(ctx)
-				if c.permissive {
-					// the documented way to allow delegation: same storage, issuer and windows as the provider's
-					// own verifier, custom subject check
-					v = op.NewJWTProfileVerifier(world.Storage, issuer, time.Hour, time.Second,
-						op.SubjectCheck(func(*oidc.JWTTokenRequest) error { return nil }))
+				v := keptV
+				switch {
+				case v != nil:
+				case c.permissive:
+					v = newProfileVerifier(world, true)
+				default:
+					v = world.Provider.JWTProfileVerifier(ctx)
 				}
 				req, err := op.VerifyJWTAssertion(ctx, tok, v)
 				o.err = err
@@ -354,14 +454,23 @@ func err2str(err error) string {
 }
 
 func verifyRP(c *caseCtx, ks oidc.KeySet, tok string, useRaw bool) outcome {
-	var o outcome
-	o.typed = !useRaw
-	o.pi = mon.Catch(func() {
+	var v *rp.IDTokenVerifier
+	if pi := mon.Catch(func() {
 		var opts []rp.VerifierOption
 		if c.A != nil {
 			opts = append(opts, rp.WithSupportedSigningAlgorithms(c.A...))
 		}
-		v := rp.NewIDTokenVerifier(issuer, rpClient, ks, opts...)
+		v = rp.NewIDTokenVerifier(issuer, rpClient, ks, opts...)
+	}); pi != nil {
+		return outcome{pi: pi, typed: !useRaw}
+	}
+	return verifyRPWith(v, tok, useRaw)
+}
+
+func verifyRPWith(v *rp.IDTokenVerifier, tok string, useRaw bool) outcome {
+	var o outcome
+	o.typed = !useRaw
+	o.pi = mon.Catch(func() {
 		if useRaw {
 			cl, err := rp.VerifyIDToken[*rawClaims](context.Background(), tok, v)
 			o.err = err
